@@ -41,6 +41,9 @@ def check_C16(ctx):
         if not a or not b:
             continue
         ctx.count(1, casehash(p))
+        if a["obs"].get("Altered"):
+            ctx.violation(a["obs"]["Altered"], dict(src_hex=p.hex(), src=p[:300].decode("utf8", "replace")), impl=a["obs"],
+                          theorem="C16_prog_readonly", key="prog-altered")
         if a["obs"] != b["obs"]:
             ctx.violation("two calls in one process gave different outcomes", dict(src_hex=p.hex(), src=p[:300].decode("utf8", "replace")),
                           impl=a["obs"], model=b["obs"], theorem="C16_execute_pure", key="repeat-inproc")
